@@ -1390,6 +1390,42 @@ class Discharger:
                     return ("D-opt", "source known Some")
         if y[0] == "agg" and y[2] in ("Some", "Ok"):
             return ("D-const", "freshly built %s" % y[2])
+        # x.or_else(|| Some(..)) / x.or(Some(..)): Some whatever x is
+        if y[0] == "call" and isinstance(y[1], str) and want == 1 and len(y[2]) == 2:
+            last = y[1].rsplit("::", 1)[-1]
+            alt = canon(y[2][1])
+            if last == "or" and alt[0] == "agg" and alt[2] == "Some":
+                return ("D-const", "or(Some(..))")
+            if last == "or_else" and alt[0] == "agg" and str(alt[1]).startswith("closure:"):
+                cb = self.P.bodies.get(str(alt[1])[len("closure:"):])
+                if cb is not None:
+                    rets = [st for _, _, st in cb.stmts() if st["p"] == (0,) and "rv" in st]
+                    calls0 = [tm for _, tm in cb.calls() if tuple(tm["dest"]) == (0,)]
+                    if rets and not calls0 and all(st["rv"]["k"] == "agg" and st["rv"].get("variant") == "Some" for st in rets):
+                        return ("D-const", "or_else(|| Some(..)): the fallback always yields Some")
+        # http::response::Builder::body on a builder made of literal, valid parts only
+        if y[0] == "call" and isinstance(y[1], str) and y[1].endswith("response::Builder::body") and want == 0 and y[2]:
+            cur, okb = canon(y[2][0]), True
+            for _ in range(12):
+                if cur[0] != "call" or not isinstance(cur[1], str):
+                    okb = False
+                    break
+                last = cur[1].rsplit("::", 1)[-1]
+                if last in ("builder", "new") and not cur[2]:
+                    break
+                if last == "status" and len(cur[2]) == 2:
+                    c = canon(cur[2][1])
+                    okb = okb and c[0] == "const" and isinstance(c[1], int) and 100 <= c[1] <= 999
+                elif last == "header" and len(cur[2]) == 3:
+                    k_, v_ = canon(cur[2][1]), canon(cur[2][2])
+                    okb = okb and k_[0] == "const" and isinstance(k_[1], str) and re.match(r"^[!#$%&'*+.^_`|~0-9A-Za-z-]+$", k_[1]) is not None and \
+                        v_[0] == "const" and isinstance(v_[1], str) and all(32 <= ord(ch) < 127 for ch in v_[1])
+                else:
+                    okb = False
+                    break
+                cur = canon(cur[2][0])
+            if okb:
+                return ("D-const", "response builder with a literal status and literal, valid header names and values")
         return None
 
     def _api(self, pr, s, ops):
